@@ -554,3 +554,6 @@ def check(ctx) -> None:
     from . import c02
 
     c02.rule_t2(ctx, pl, "C05-P8")
+    # P10: nothing a batch leaves behind is applied to the rows of a later batch: no container that outlives the batch is
+    # mutated on the pipeline path (shared with C06-B4)
+    c06.rule_b4(ctx, ctx.pipeline_reachable(), "C05-P10")
